@@ -66,3 +66,37 @@ def run(ctx):
             if got[:len(exp)] != exp:
                 ctx.fail("frame-before-cut-not-delivered", inp, [(r.hex(), p) for r, p in exp][:6],
                          [(r.hex(), p) for r, p in got][:6])
+    socket_cuts(ctx, rng, streams, full)
+
+
+def socket_cuts(ctx, rng, streams, full):
+    """The cut stream arriving through a socket whose peer closes (or times out) at the cut: iteration must end, without
+    raising, with a prefix of what the uncut stream yields from a file."""
+    from props import c10
+    scases = []
+    for parts, s in streams[: (20 if ctx.quick() else 150)]:
+        if len(s) > 160 or not s:
+            continue
+        for k in sorted(set(rng.sample(range(len(s) + 1), min(len(s) + 1, 10 if ctx.quick() else 40)))):
+            cut = s[:k]
+            if not cut:
+                continue
+            cuts = sorted(rng.sample(range(1, len(cut)), min(len(cut) - 1, rng.randrange(0, 3)))) if len(cut) > 1 else []
+            c = c10.mk_case(cut, rl.split_at(cut, cuts), rng.choice([1, 7, 64, 4096]), rng.choice(["close", "close", "timeout"]), 7, 0, True)
+            c["full"] = s
+            c["k"] = k
+            scases.append(c)
+    sobs = rp.correspond_runs(ctx, scases, "SOCK")
+    rl.install()
+    try:
+        for c, o in zip(scases, sobs):
+            inp = {"op": "SOCK-CUT", "stream": c["full"].hex(), "cut": c["k"], "chunks": rl.events_str(c["events"])[:200],
+                   "bufsize": c["bufsize"], "end": c["end"]}
+            ref = rp.items_key(rl.run_reader(c["full"], 7, 0, True)["items"])
+            got = rp.items_key(o["items"])
+            if o["raised"] is not None:
+                ctx.fail("cut-run-raised", inp, "ends without raising", o["raised"])
+            elif got != ref[:len(got)]:
+                ctx.fail("not-a-prefix", inp, [(r.hex(), p) for r, p in ref][:6], [(r.hex(), p) for r, p in got][:6])
+    finally:
+        rl.uninstall()
